@@ -64,6 +64,10 @@ impl<'a> Ref<'a> {
     /// everything the hypotheses imply through trait where-clauses (supertraits, parameter bounds)
     pub fn closure(&mut self, env: &BTreeSet<Atom>) -> BTreeSet<Atom> {
         let mut out = env.clone();
+        // the solvers measure whole goals, environment included: hypotheses and what they elaborate to count
+        for (ty, _, args) in env.iter() {
+            self.max_size = self.max_size.max(ty.size()).max(args.iter().map(|a| a.size()).max().unwrap_or(0));
+        }
         let mut work: Vec<Atom> = env.iter().cloned().collect();
         while let Some((ty, tn, args)) = work.pop() {
             let td = match self.p.tr(&tn) {
@@ -80,6 +84,7 @@ impl<'a> Ref<'a> {
             for wc in &td.wcs {
                 let f = wc.subst(&m);
                 let atom = (f.ty, f.tr, f.args);
+                self.max_size = self.max_size.max(atom.0.size()).max(atom.2.iter().map(|a| a.size()).max().unwrap_or(0));
                 if out.contains(&atom) {
                     self.closure_cycle = true;
                 } else {
@@ -201,6 +206,7 @@ impl<'a> Ref<'a> {
         Ok(match g {
             Goal::Pred(p) => {
                 let q = p.subst(m);
+                self.max_size = self.max_size.max(q.ty.size()).max(q.args.iter().map(|a| a.size()).max().unwrap_or(0));
                 if q.has_var() {
                     return Ok(Tv::U);
                 }
@@ -209,6 +215,7 @@ impl<'a> Ref<'a> {
             }
             Goal::Eq(a, b) => {
                 let (x, y) = (a.subst(m), b.subst(m));
+                self.max_size = self.max_size.max(x.size()).max(y.size());
                 if x.has_var() || y.has_var() {
                     return Ok(Tv::U);
                 }
